@@ -518,7 +518,7 @@ class Interp:
             elif k == "Call":
                 args = [self.operand(fr, a) for a in t["args"]]
                 try:
-                    res = self.do_call(fr, t, args, depth)
+                    res = self.do_call(fr, t, args, depth, mut_flags=[self._is_mut_ref_operand(body, a) for a in t["args"]])
                 except Undecided as e:
                     st = getattr(e, "stack", None)
                     if st is None:
@@ -633,7 +633,7 @@ class Interp:
                 return b
         return None
 
-    def call_path(self, path, callee, args, depth, caller=None):
+    def call_path(self, path, callee, args, depth, caller=None, mut_flags=None):
         self.cur_env = caller.env if caller is not None else {}
         for key, fn in self.models.items():
             if key.startswith("$"):
@@ -674,6 +674,13 @@ class Interp:
                 env.update(self.infer_env(tb, args))
                 return self.call_body(tb, args, depth + 1, env=env)
         self.trace.append("unmodelled call: %s" % path)
+        # whatever an uninterpreted callee may write through a `&mut` argument is unknown from here on (rather than unchanged)
+        for a_, m_ in zip(args, mut_flags or ()):
+            if m_ and isinstance(a_, tuple) and a_[0] == "ref":
+                try:
+                    self._store(a_[1], a_[2], list(a_[3]), UNKNOWN)
+                except Exception:
+                    pass
         if getattr(self, "strict_calls", False):
             raise Undecided("unmodelled call: %s with %s" % (path, [str(deref_all(self, a))[:80] for a in args]))
         return UNKNOWN
@@ -708,13 +715,21 @@ class Interp:
                     env[m2.group(2)] = len(arr[1])
         return env
 
-    def do_call(self, fr, t, args, depth):
+    def do_call(self, fr, t, args, depth, mut_flags=None):
         c = t.get("callee")
         if not c:
             f = self.operand(fr, t["indirect"])
             return self.invoke(f, args, depth)
         path = c["res"]["path"] if c.get("res") else c["path"]
-        return self.call_path(path, c, args, depth, caller=fr)
+        return self.call_path(path, c, args, depth, caller=fr, mut_flags=mut_flags)
+
+    @staticmethod
+    def _is_mut_ref_operand(body, a):
+        pl = a.get("m") or a.get("c")
+        if pl is None or pl["p"]:
+            return False
+        ty = body.locals[pl["l"]] if pl["l"] < len(body.locals) else ""
+        return isinstance(ty, str) and ty.startswith("&mut ")
 
 
 def copy_val(v):
